@@ -64,7 +64,7 @@ func designatedType(s *slip.Scope, arg slip.Object, name string, depth int) (pt 
 	case slip.Class:
 		pt = ta
 	case slip.Symbol:
-		pt = slip.FindClass(string(ta))
+		pt = slip.FindClass(string(typeName(ta)))
 	case slip.List:
 		if len(ta) == 2 {
 			pt, _ = designatedType(s, ta[0], name, depth)
